@@ -737,7 +737,13 @@ func runMS(in []string) []string {
 		if mode == "" {
 			mode = "once"
 		}
-		sinks[0] = &failSink{k: cs.failK, mode: mode, phase: cs.phase}
+		fs := &failSink{k: cs.failK, mode: mode, phase: cs.phase}
+		if cs.phase == 0 {
+			// no phase-1 messages (only a shrunk case looks like this): every
+			// message is judged in full, so a single failure must not happen
+			fs.disarm()
+		}
+		sinks[0] = fs
 	}
 	sk := sinks[0]
 	lbs := []*lockedBuf{lb}
